@@ -58,119 +58,48 @@ func c19Oflags(r *Run) {
 		return
 	}
 	r.SawFn(fnName(fn))
-	mode := fn.Params[0]
-	// the selector value mode & 3
-	var sel *ssa.BinOp
-	eachInstr(fn, func(in ssa.Instruction) {
-		if b, ok := in.(*ssa.BinOp); ok && b.Op == token.AND && b.X == ssa.Value(mode) {
-			if c, ok := constInt(b.Y); ok && c == 3 {
-				sel = b
-			}
-		}
-	})
-	if sel == nil {
-		r.Bad("oflags", "oflags: selects on mode & 3", fn.Pos(), "the access mode is not taken from the low two bits")
-		return
-	}
-	// base flags: phi of constants, each edge under sel == K
-	var base *ssa.Phi
-	eachInstr(fn, func(in ssa.Instruction) {
-		if ph, ok := in.(*ssa.Phi); ok && base == nil {
-			allConst := true
-			for _, e := range ph.Edges {
-				if _, ok := constInt(e); !ok {
-					allConst = false
-				}
-			}
-			if allConst {
-				base = ph
-			}
-		}
-	})
-	if base == nil {
-		r.Undecided("oflags", "oflags: table", fn.Pos(), "the switch is not a table of constants")
-		return
-	}
-	got := map[int64]int64{}
-	fallthroughVal := int64(-1)
-	for i, e := range base.Edges {
-		v, _ := constInt(e)
-		pred := base.Block().Preds[i]
-		k := int64(-1)
-		for _, cd := range append(condsAt(pred), edgeCond(pred, base.Block())...) {
-			nc := normCond(cd)
-			if b, ok := nc.V.(*ssa.BinOp); ok && b.Op == token.EQL && nc.Truth && b.X == ssa.Value(sel) {
-				if c, ok := constInt(b.Y); ok {
-					k = c
-				}
-			}
-		}
-		if k >= 0 {
-			got[k] = v
-		} else {
-			fallthroughVal = v
-		}
-	}
-	for k := int64(0); k < 4; k++ {
-		if _, ok := got[k]; !ok && fallthroughVal >= 0 {
-			got[k] = fallthroughVal
-		}
-	}
+	// the function is a pure table: fold it for every access mode, with and without each flag bit
+	// (conditional constant propagation; no code of the repository is executed)
 	want := map[string]string{"OREAD": "O_RDONLY", "OWRITE": "O_WRONLY", "ORDWR": "O_RDWR", "OEXEC": "O_RDONLY"}
 	names := []string{}
 	for k := range want {
 		names = append(names, k)
 	}
 	sort.Strings(names)
+	otr, _ := p9pConst(p, "OTRUNC")
+	htr, ok0 := pkgConstInt(p, "ufs", "os", "O_TRUNC")
+	if !ok0 {
+		r.Undecided("oflags", "oflags: os.O_TRUNC", fn.Pos(), "constant not resolved")
+		return
+	}
 	for _, k := range names {
 		kv, ok1 := p9pConst(p, k)
 		wv, ok2 := pkgConstInt(p, "ufs", "os", want[k])
-		gv, ok3 := got[kv]
-		r.Check(ok1 && ok2 && ok3 && gv == wv, "oflags", fmt.Sprintf("oflags: %s → os.%s", k, want[k]), fn.Pos(),
-			fmt.Sprintf("open mode %s (%d) is mapped to host flag %d, os.%s is %d", k, kv, gv, want[k], wv))
-	}
-	// O_TRUNC exactly on the OTRUNC bit
-	otr, _ := p9pConst(p, "OTRUNC")
-	htr, _ := pkgConstInt(p, "ufs", "os", "O_TRUNC")
-	okTr := false
-	for _, ret := range returnsOf(fn) {
-		ph, ok := ret.Results[0].(*ssa.Phi)
-		if !ok || len(ph.Edges) != 2 {
-			continue
-		}
-		var plain, trunc bool
-		for i, e := range ph.Edges {
-			pred := ph.Block().Preds[i]
-			conds := append(condsAt(pred), edgeCond(pred, ph.Block())...)
-			bitSet := 0
-			for _, cd := range conds {
-				nc := normCond(cd)
-				if b, ok := nc.V.(*ssa.BinOp); ok && (b.Op == token.NEQ || b.Op == token.EQL) {
-					if a, ok := b.X.(*ssa.BinOp); ok && a.Op == token.AND && a.X == ssa.Value(mode) {
-						if m, ok := constInt(a.Y); ok && m == otr {
-							if z, ok := constInt(b.Y); ok && z == 0 {
-								if (b.Op == token.NEQ) == nc.Truth {
-									bitSet = 1
-								} else {
-									bitSet = -1
-								}
-							}
-						}
-					}
+		okAll := ok1 && ok2
+		detail := ""
+		for _, extra := range []int64{0, 0x20, 0x40, 0x60} { // OCEXEC, ORCLOSE must not matter
+			for _, tr := range []bool{false, true} {
+				in := kv | extra
+				exp := wv
+				if tr {
+					in |= otr
+					exp |= htr
 				}
-			}
-			if e == ssa.Value(base) && bitSet == -1 {
-				plain = true
-			}
-			if o, ok := e.(*ssa.BinOp); ok && o.Op == token.OR && o.X == ssa.Value(base) && bitSet == 1 {
-				if c, ok := constInt(o.Y); ok && c == htr {
-					trunc = true
+				got, ok := ccpCall(fn, []ccpVal{{kind: "i", i: in}})
+				if !ok || got.kind != "i" {
+					okAll = false
+					detail = fmt.Sprintf("oflags(%#x) does not fold to a constant", in)
+					continue
+				}
+				if got.i != exp {
+					okAll = false
+					detail = fmt.Sprintf("oflags(%#x) = %#x, want %#x", in, got.i, exp)
 				}
 			}
 		}
-		okTr = plain && trunc
+		r.Check(okAll, "oflags", fmt.Sprintf("oflags: %s → os.%s, O_TRUNC exactly with OTRUNC, other flag bits ignored", k, want[k]), fn.Pos(),
+			"the open-mode table is wrong: "+detail)
 	}
-	r.Check(okTr, "oflags", "oflags: O_TRUNC added exactly when OTRUNC is set", fn.Pos(), "truncation on open does not follow the OTRUNC bit")
 }
 
 func c19DirFromInfo(r *Run) {
